@@ -238,8 +238,23 @@ Definition verify_disclosures (payload : val) (ds : list disc) : res unit :=
 (* ---------- holder binding (verifier.go runHolderVerification) ----------
    The JWS layer is C08's subject: here a holder-binding JWT is (key that signed it, nonce, aud, whether its
    alg is allowed and its time claims valid). *)
-Record hbjwt := { hb_key : Z; hb_nonce : string; hb_aud : string; hb_ok : bool }.
-Record vopts := { vo_required : bool; vo_nonce : string; vo_aud : string }.
+Record hbjwt := { hb_key : Z; hb_nonce : string; hb_aud : string; hb_ok : bool; hb_iat : option Z }.
+(* vo_now: the verifier's clock (seconds), vo_leeway: WithLeewayForClaimsValidation (default one minute) *)
+Record vopts := { vo_required : bool; vo_nonce : string; vo_aud : string; vo_now : Z; vo_leeway : Z }.
+
+(* common.VerifyJWT = go-jose Claims.ValidateWithLeeway: nbf not after now+leeway, exp not before now-leeway,
+   iat not after now+leeway; an absent claim is not checked *)
+Definition time_ok (now lw : Z) (iat nbf exp : option Z) : bool :=
+  match nbf with Some t => Z.leb t (now + lw) | None => true end &&
+  match exp with Some t => Z.leb (now - lw) t | None => true end &&
+  match iat with Some t => Z.leb t (now + lw) | None => true end.
+Definition time_claim (payload : val) (k : string) : option Z :=
+  match payload with
+  | VObj m => match lookupv m k with Some (VNum z) => Some z | _ => None end
+  | _ => None
+  end.
+Definition payload_time_ok (vo : vopts) (payload : val) : bool :=
+  time_ok (vo_now vo) (vo_leeway vo) (time_claim payload "iat") (time_claim payload "nbf") (time_claim payload "exp").
 
 Definition holder_verification (vo : vopts) (payload : val) (hb : option hbjwt) : res unit :=
   match hb with
@@ -248,6 +263,7 @@ Definition holder_verification (vo : vopts) (payload : val) (hb : option hbjwt) 
       bind (get_cnf_key payload) (fun k =>
         if negb (Z.eqb k (hb_key h)) then Err ERejected            (* signature does not verify under cnf.jwk *)
         else if negb (hb_ok h) then Err ERejected
+        else if negb (time_ok (vo_now vo) (vo_leeway vo) (hb_iat h) None None) then Err ERejected   (* VerifyJWT of the binding *)
         else if negb (String.eqb (vo_nonce vo) "") && negb (String.eqb (vo_nonce vo) (hb_nonce h)) then Err ERejected
         else if negb (String.eqb (vo_aud vo) "") && negb (String.eqb (vo_aud vo) (hb_aud h)) then Err ERejected
         else Ok tt)
@@ -258,6 +274,7 @@ Record presentation := { p_sig_ok : bool; p_payload : val; p_discs : list disc; 
 
 Definition verify (vo : vopts) (p : presentation) : res val :=
   if negb (p_sig_ok p) then Err ERejected
+  else if negb (payload_time_ok vo (p_payload p)) then Err ERejected      (* VerifyJWT of the issuer-signed JWT *)
   else if negb (nodupd (p_discs p)) then Err ERejected                (* checkForDuplicates *)
   else
     bind (verify_disclosures (p_payload p) (p_discs p)) (fun _ =>
